@@ -62,6 +62,28 @@ def maskedWhere (cond : List Bool) (a : List M) : List M :=
 def remask (mask : List Bool) (data : List Int) : List M :=
   List.zipWith (fun m d => if m then none else some d) mask data
 
+/-! ### masking by a predicate on the value: `masked_inside/outside/equal/greater/…/invalid`
+
+`np.ma.masked_<pred>(x, …)` is `masked_where(<pred>(filled(x)), x)`: an unmasked element becomes masked iff the predicate
+holds; masked elements stay masked whatever lies under the mask.  dask applies the NumPy function to every block. -/
+
+def maskedBy (p : Int → Bool) (a : List M) : List M :=
+  a.map fun x => match x with
+    | some v => if p v then none else some v
+    | none => none
+
+/-- `np.ma.masked_inside(x, v1, v2)`: the interval `[v1, v2]`; **NumPy swaps the bounds when `v2 < v1`** -/
+def insideP (v1 v2 : Int) (x : Int) : Bool := decide (min v1 v2 ≤ x) && decide (x ≤ max v1 v2)
+
+/-- the same test without the normalisation of the bounds (what `(x >= v1) & (x <= v2)` computes) -/
+def insideRaw (v1 v2 : Int) (x : Int) : Bool := decide (v1 ≤ x) && decide (x ≤ v2)
+
+def maskedInside (v1 v2 : Int) : List M → List M := maskedBy (insideP v1 v2)
+def maskedOutside (v1 v2 : Int) : List M → List M := maskedBy fun x => !insideP v1 v2 x
+
+/-- `da.ma.masked_array(data, mask)`: element `i` is masked iff `mask[i]` -/
+def maskedArray (data : List Int) (mask : List Bool) : List M := remask mask data
+
 /-- `da.cumsum`/`da.cumprod` (sequential) on a masked array, block by block -/
 def maScanBlocks (op : Int → Int → Int) (ident : Int) (blocks : List (List M)) : List (List M) :=
   List.zipWith remask (blocks.map getmask) (BlockScan.seqScan op ident (blocks.map (filled ident)))
